@@ -37,7 +37,7 @@ EXTENDS Invariance
 MCShifts == {-1, 3}
 MCPre == {1, -2}
 MCKT == {1, -1}
-MCRates == {1, -2, 3}
+MCRates == {1, -2, 3, -40}
 ====
 """)
     res = tlc.run(path, cfg, workers=4, dump=True, workdir=wd, timeout=600)
@@ -115,7 +115,11 @@ def run(ctx):
     def pick(k):
         sel = [n for n in ids if n != root]
         rng.shuffle(sel)
-        return sel[:k]
+        # always include realistic absolute rates (all rates x 2^-40 ~ 1e-12), alone and combined with a displacement
+        slow = [n for n in sel if nodes[n]["rate"] <= -40]
+        slow.sort(key=lambda n: (sum(1 for k_ in ("shV", "shS", "prV", "prS", "kt") if nodes[n][k_]), str(sorted(nodes[n].items()))))
+        must = slow[:2] + [n for n in slow if nodes[n]["disp"]][:2]
+        return list(dict.fromkeys(must + sel[:k]))
 
     # ---- interstitial
     iw = [("fccoct", 2, 1), ("hcpoct", 2, 2), ("polarrect", 1, 2), ("wurtzite", 1, 1), ("monodeco", 1, 2)]
@@ -189,7 +193,11 @@ def add_case(cases, metas, s, pairs, st, label, data, tol=2e-7):
     for nm, (T0, T1) in pairs.items():
         tens[nm + "_root"] = rel.to_latt(s.crys, T0)
         tens[nm + "_node"] = rel.to_latt(s.crys, T1)
-        if r >= 0:
+        if abs(r) > 8:
+            # large exponents: multiply by the power of two in floating point (exact) before handing to TLC
+            tens[nm + "_node"] = rel.to_latt(s.crys, np.asarray(T1) * 2.0 ** (-r))
+            terms = [(1, nm + "_node"), (-1, nm + "_root")]
+        elif r >= 0:
             terms = [(1, nm + "_node"), (-(2 ** r), nm + "_root")]
         else:
             terms = [(2 ** (-r), nm + "_node"), (-1, nm + "_root")]
